@@ -1293,7 +1293,7 @@ fn main() {
     if legs.contains("oracle") {
         let t1 = Instant::now();
         let seed = std::env::var("VERIF_SEED").ok().and_then(|s| s.parse::<u64>().ok()).unwrap_or(1);
-        let (n_hist, n_steps) = if tier == "thorough" { (70usize, 30usize) } else { (25, 8) };
+        let (n_hist, n_steps) = if tier == "thorough" { (70usize, 30usize) } else { (30, 10) };
         let n_hist = std::env::var("H13_HISTORIES").ok().and_then(|s| s.parse().ok()).unwrap_or(n_hist);
         let n_steps = std::env::var("H13_STEPS").ok().and_then(|s| s.parse().ok()).unwrap_or(n_steps);
         let threads = std::env::var("H13_THREADS").ok().and_then(|s| s.parse().ok()).unwrap_or(if tier == "thorough" { 8usize } else { 12 });
